@@ -193,7 +193,10 @@ def gen_case(rng, kind):
     if opts["common"] is not None:
         finals.add(f1(opts["common"]))
     elif not data and opts["mapping"]:
-        finals.add(min(v for _, v in opts["mapping"]))
+        # no rows and no caller-chosen common: the library picks the common among the mapping's values
+        # (the minimum, or - when counts are supplied - the first maximum of the mapped counts); the
+        # explicit dtype chosen below must hold whichever it is (it is a value of the index)
+        finals.update(v for _, v in opts["mapping"])
     finals = sorted(finals)
     # ---- to_array mode ----
     to = dict(mapping=None, dtype=None)
